@@ -259,7 +259,28 @@ func GenerateWith(k Knobs, profile string, seed int64, index int, tier string) *
 			g.c.Faults.PEvictCallFails = 0
 		}
 	}
+	LabelForNodePool(g.c)
 	return g.c
+}
+
+// LabelForNodePool gives every queue and pod group the node-pool label the scheduler shard selects on
+// (the scheduler lists nodes, queues and pod groups with the partition selector).
+func LabelForNodePool(c *spec.Case) {
+	if c.Config.NodePoolKey == "" || c.Config.NodePoolValue == "" {
+		return
+	}
+	for _, q := range c.Objects.Queues {
+		if q.Labels == nil {
+			q.Labels = map[string]string{}
+		}
+		q.Labels[c.Config.NodePoolKey] = c.Config.NodePoolValue
+	}
+	for _, pg := range c.Objects.PodGroups {
+		if pg.Labels == nil {
+			pg.Labels = map[string]string{}
+		}
+		pg.Labels[c.Config.NodePoolKey] = c.Config.NodePoolValue
+	}
 }
 
 func (g *G) config() {
